@@ -1,6 +1,7 @@
 import EoNVerif.Props.C04
 import EoNVerif.Props.C11
 import EoNVerif.Props.C13
+import EoNVerif.Props.C02b
 /-!
 C09 — transmissions: the theorem `Gillespie.tv_gillespie` (Pred.transmissionsValid holds of every output of the
 Gillespie_SIR/SIS model) is stated and proved in `Props/C04.lean`; `EventSIR.fpp_sound` (C11) and
